@@ -28,7 +28,9 @@ RULE = ("scenarios = 0-8 expectations over <=3 function names, <=3 parameter nam
         "expectations with parameters in random order and 0-2 mutations (drop, duplicate, change value, rename/add/remove "
         "parameter, wrong/missing/extra object, output parameter), optional return-value query; strict order on/off; "
         "scopes, ignoreOtherCalls, enable/disable, expectedCallsLeft, clear, interleaved expectations; streams: plain "
-        "(judged by the oracle), iop (ignoreOtherParameters: model comparison only), ambig (ambiguous sets, repeated "
+        "(judged by the oracle), iop (judged by the oracle: several ignoreOtherParameters expectations sharing required "
+        "parameters - identical classes and conflicting siblings -, counts > 1, calls with extra parameters / extra output "
+        "parameters, calls lacking a required parameter, duplicated and dropped calls), ambig (ambiguous sets, repeated "
         "parameter names, late strictOrder: model comparison only unless the oracle finds them inside the hypothesis), "
         "malformed; non-trivial = at least one expectation and one call; distinct = distinct op sequences")
 
@@ -61,7 +63,8 @@ class E:
         return 1 if self.count == "one" else 0 if self.count == "no" else int(self.count)
 
     def sig(self):
-        return (self.fn, self.obj, frozenset(self.ins), frozenset(n for n, _ in self.outs))
+        # with ignoreOtherParameters the parameters are the REQUIRED ones; the flag is part of the signature
+        return (self.fn, self.obj, frozenset(self.ins), frozenset(n for n, _ in self.outs), self.iop)
 
     def line(self, rng):
         segs = []
@@ -107,7 +110,7 @@ def fresh_exp(rng, scope, fn, ambiguous=False):
 def derive_exp(rng, base, ambiguous=False):
     """identical signature, or one value changed (a conflicting sibling)"""
     e = E(base.scope, base.fn)
-    e.ins, e.outs, e.obj = list(base.ins), list(base.outs), base.obj
+    e.ins, e.outs, e.obj, e.iop = list(base.ins), list(base.outs), base.obj, base.iop
     x = rng.random()
     if x < 0.45 and e.ins:
         i = rng.randrange(len(e.ins))
@@ -130,15 +133,19 @@ def derive_exp(rng, base, ambiguous=False):
     return e
 
 
-def decorate(rng, e, iop=False):
+def decorate(rng, e, iop=False, derived=False):
     e.count = rng.choice(["one", "one", "one", "1", "2", "2", "3", "4", "0", "no"])
+    if iop and e.iop:
+        e.count = rng.choice(["one", "one", "2", "2", "3", "4", "0"])      # counts > 1 are common
     if e.count == "no":
-        e.ins, e.outs, e.obj = [], [], None
+        e.ins, e.outs, e.obj, e.iop = [], [], None, False
         return e
     if rng.random() < 0.5:
         e.ret = rng.choice(RETS)
-    if iop and rng.random() < 0.5:
-        e.iop = True
+    if iop and not derived and rng.random() < 0.65:
+        e.iop = True           # siblings derived from an expectation keep its flag (same class or conflicting)
+    elif iop and derived and rng.random() < 0.1:
+        e.iop = not e.iop      # sometimes flipped: unambiguous only if the sibling conflicts
     return e
 
 
@@ -150,11 +157,15 @@ def gen_exps(rng, scopes, mode):
         tries += 1
         scope = rng.choice(scopes)
         same = [x for x in exps if x.scope == scope]
-        if same and rng.random() < 0.55:
+        derived = bool(same) and rng.random() < (0.7 if mode == "iop" else 0.55)
+        if derived:
             e = derive_exp(rng, rng.choice(same), ambiguous=(mode == "ambig"))
         else:
             e = fresh_exp(rng, scope, rng.choice(FUNCS), ambiguous=(mode == "ambig"))
-        decorate(rng, e, iop=(mode == "iop"))
+            if mode == "iop" and not e.ins and rng.random() < 0.7:
+                n = rng.choice(PNAMES)                       # required parameters to share
+                e.ins = [(n, rng.choice(VALUES[n]))]
+        decorate(rng, e, iop=(mode in ("iop", "ambig") and (mode == "iop" or rng.random() < 0.3)), derived=derived)
         if mode in ("plain", "iop") and not unambiguous_with(exps, e):
             continue
         exps.append(e)
@@ -180,17 +191,23 @@ class C:
 def call_of(e, rng):
     ins = list(e.ins)
     obj = e.obj
-    if e.iop and rng.random() < 0.6:
-        left = [n for n in PNAMES if n not in dict(ins)]
+    outs = [n for n, _ in e.outs]
+    if e.iop and rng.random() < 0.7:
+        left = [n for n in PNAMES + ["q9"] if n not in dict(ins)]
         for n in rng.sample(left, rng.randint(0, len(left))):
-            ins.append((n, rng.choice(VALUES[n])))
+            ins.append((n, rng.choice(VALUES.get(n, ["i:5", "s:61"]))))
+        if rng.random() < 0.2:
+            outs += [n for n in rng.sample(ONAMES, 1) if n not in outs]
     if obj is None and rng.random() < 0.08:
         obj = rng.choice(OBJS)            # an expectation without object accepts any object
-    return C(e.scope, e.fn, ins, [n for n, _ in e.outs], obj)
+    return C(e.scope, e.fn, ins, outs, obj)
 
 
-def mutate(rng, calls, scopes, ambiguous=False):
-    kind = rng.choice(["drop", "dup", "value", "rename", "add", "remove", "object", "out", "unknown", "swap"])
+def mutate(rng, calls, scopes, ambiguous=False, iop=False):
+    kinds = ["drop", "dup", "value", "rename", "add", "remove", "object", "out", "unknown", "swap"]
+    if iop:
+        kinds += ["remove", "remove", "remove", "dup", "add"]     # calls without a required parameter are routine
+    kind = rng.choice(kinds)
     if kind == "unknown" or not calls:
         calls.insert(rng.randint(0, len(calls)), C(rng.choice(scopes), rng.choice(FUNCS + ["g9"]), [], [], None))
         return kind
@@ -259,8 +276,8 @@ def round_ops(rng, scopes, mode):
             rng.shuffle(calls)
     else:
         rng.shuffle(calls)
-    for _ in range(rng.choice([0, 0, 0, 1, 1, 2])):
-        mutate(rng, calls, scopes, ambiguous=(mode == "ambig"))
+    for _ in range(rng.choice([0, 0, 0, 1, 1, 2]) if mode != "iop" else rng.choice([0, 0, 1, 1, 1, 2])):
+        mutate(rng, calls, scopes, ambiguous=(mode == "ambig"), iop=(mode == "iop"))
     for c in calls:
         c.r = rng.random() < 0.55
     elines = [e.line(rng) for e in exps]
@@ -329,7 +346,7 @@ def generate(rng, tier):
     out = []
     for _ in range(n):
         out.append(("plain", gen_case(rng, "plain")))
-    for _ in range(n // 3):
+    for _ in range(n // 2):
         out.append(("iop", gen_case(rng, "iop")))
     for _ in range(n // 3):
         out.append(("ambig", gen_case(rng, "ambig")))
@@ -378,8 +395,10 @@ def observe(r, rep):
             rep.count("obs." + l.replace(" ", "."))
     if not failed:
         rep.count("verdict.pass")
-    if tag == "plain":
-        rep.count("oracle.judged")
+    if tag in ("plain", "iop"):
+        rep.count("oracle.judged." + tag)
+    if tag == "iop" and any(" iop" in l or l.endswith("iop") for l in r.ops if l.startswith("expect ")):
+        rep.count("feature.ignoreOtherParameters")
     if any(l.startswith("strict ") for l in r.ops):
         rep.count("feature.strict")
     if any(l.split()[1] != "-" for l in r.ops if len(l.split()) > 1 and l.split()[0] in ("expect", "call")):
@@ -403,10 +422,15 @@ LEVEL_TEXT = ("Machine-checked Lean 4 theorems (lean/CppUModel/Props/C08.lean) o
               "unexpected call, additional n-th call, parameter name, parameter value, output parameter, unexpected object, "
               "missing parameter, missing object; else unfulfilled, then out-of-order at the end), returns_value_of_consumed, "
               "outputs_copied_from_consumed_partial, plus lemmas that expectNCalls produces the hypotheses (clean flags, "
-              "consecutive order windows) and that the diagnosis texts are the regenerated ones. The model is tied to the code "
+              "consecutive order windows) and that the diagnosis texts are the regenerated ones; for EVERY class (also "
+              "ignoreOtherParameters and ambiguous sets) no_stale_matching_state / calls_leave_clean: a call that reports no "
+              "failure leaves all matching flags clean. The model is tied to the code "
               "on every run by a differential harness over generated scenarios (real mock()/mock(scope) API, recording "
               "reporter, ASan/UBSan), and the implementation's own observations (verdict, first line of the failure, returned "
-              "values, output bytes, expectedCallsLeft) are judged by an independent textbook oracle; the failure-message table "
+              "values, output bytes, expectedCallsLeft) are judged by an independent textbook oracle, in the plain class and in "
+              "the ignoreOtherParameters class (a call matches such an expectation iff name/object agree and every parameter it "
+              "names occurs with an equal value, extra parameters allowed; per-class counting for unambiguous sets; a call "
+              "lacking a required parameter must fail with the missing-parameter diagnosis); the failure-message table "
               "is regenerated from MockFailure.cpp.")
 LEVEL_NOTE = ("Trusted: Lean kernel; the hand-written model (validated against the code by the correspondence of this run, "
               "including scopes, ignoreOtherCalls, enable/disable, clear, expectedCallsLeft, ignoreOtherParameters and ambiguous "
@@ -416,7 +440,9 @@ LEVEL_NOTE = ("Trusted: Lean kernel; the hand-written model (validated against t
               "Scope.seg, Scope.checkLast, World.check) compute exactly callFull / endCheck in that situation; finishing a "
               "call only at the next actualCall / checkExpectations (deferred) gives the same verdict by correspondence, "
               "not by proof. Partial: outputs_copied_from_consumed (copied bytes proved, "
-              "untouched tail only observed). Not carried by theorems: ignoreOtherParameters / ignoreOtherCalls classes "
-              "(correspondence only), mixed-integer parameter equality (C09).")
+              "untouched tail only observed); the ignoreOtherParameters class: only no_stale_matching_state is proved, the "
+              "verdict statement iop_verdict_iff_multiset_eq_full stays a visible unproved def and is judged by the oracle on "
+              "every run. Not carried by theorems: ignoreOtherCalls, ambiguous sets (correspondence only), mixed-integer "
+              "parameter equality (C09).")
 TECHNIQUE = ("Lean 4 invariant / refinement-to-multiset proofs over an executable model + differential correspondence harness "
              "+ independent specification oracle + regenerated failure-message table")
